@@ -2,6 +2,7 @@ package rules
 
 import (
 	"go/ast"
+	"go/token"
 	"go/types"
 
 	"gengoverif/checker/internal/core"
@@ -185,4 +186,68 @@ func memberCall(p *core.Program, f *core.Func, c *ast.CallExpr) (set, elem ast.E
 		return nil, nil, false
 	}
 	return c.Args[0], c.Args[1], true
+}
+
+// structInits: how a constructor initialises the struct value it returns, by field object:
+// the elements of the returned `&T{...}` literal (directly or through a single-definition local)
+// plus, for a local `x := &T{...}`, the field-by-field assignments `x.f = v` of the body.
+// ok is false when the returned value is not such a fresh literal or a field is assigned twice.
+func structInits(info *types.Info, body *ast.BlockStmt, result ast.Expr) (map[*types.Var]ast.Expr, bool) {
+	out := map[*types.Var]ast.Expr{}
+	holder := core.VarOf(info, result)
+	e, _ := core.Resolve(info, body, result)
+	e = ast.Unparen(e)
+	if u, ok := e.(*ast.UnaryExpr); ok && u.Op == token.AND {
+		e = ast.Unparen(u.X)
+	}
+	cl, ok := e.(*ast.CompositeLit)
+	if !ok {
+		if c, isCall := e.(*ast.CallExpr); isCall && core.CalleeName(info, c) == "builtin.new" {
+			cl = &ast.CompositeLit{}
+		} else {
+			return nil, false
+		}
+	}
+	for _, el := range cl.Elts {
+		kv, ok := el.(*ast.KeyValueExpr)
+		if !ok {
+			return nil, false // positional literal
+		}
+		id, _ := kv.Key.(*ast.Ident)
+		if id == nil {
+			return nil, false
+		}
+		if fld, ok := info.ObjectOf(id).(*types.Var); ok && fld.IsField() {
+			out[fld] = kv.Value
+		}
+	}
+	if holder != nil {
+		good := true
+		ast.Inspect(body, func(n ast.Node) bool {
+			as, ok := n.(*ast.AssignStmt)
+			if !ok {
+				return true
+			}
+			for i, l := range as.Lhs {
+				sel, isSel := ast.Unparen(l).(*ast.SelectorExpr)
+				if !isSel || core.VarOf(info, sel.X) != holder {
+					continue
+				}
+				fld := core.FieldOf(info, sel)
+				if fld == nil || i >= len(as.Rhs) || len(as.Lhs) != len(as.Rhs) || as.Tok != token.ASSIGN {
+					good = false
+					continue
+				}
+				if _, dup := out[fld]; dup {
+					good = false
+				}
+				out[fld] = as.Rhs[i]
+			}
+			return true
+		})
+		if !good {
+			return nil, false
+		}
+	}
+	return out, true
 }
